@@ -348,9 +348,15 @@ def check_transpose_key(ctx: Ctx, rule_prefix="RET") -> None:
         if m and "key_transpose_order" in c.split("[")[0]:
             inner = m.group(1)
             good = (f"{tparam}" in inner and ".index(" in inner and f"-1*{tparam}" not in inner and f"2*{tparam}" not in inner)
-            ctx.check(good, f"{rule_prefix}2", inst, function=fi.qualname,
-                      construct="transposed key index is not (index(key) + interval) mod 12",
-                      message=f"index expression normalises to `{inner}`", file=fi.file, node=r)
+            wrong = f"{tparam}" not in inner or f"-1*{tparam}" in inner or f"2*{tparam}" in inner
+            if good or wrong:
+                ctx.check(good, f"{rule_prefix}2", inst, function=fi.qualname,
+                          construct="transposed key index is not (index(key) + interval) mod 12",
+                          message=f"index expression normalises to `{inner}`", file=fi.file, node=r)
+            else:
+                # another way to find the key's chromatic position (its tonic, a look-up table): whether it is the right one is what the
+                # exhaustive evaluation over keys x intervals decides (VS-KEY)
+                ctx.undetermined(f"{rule_prefix}2", inst, f"index `{inner}` adds the interval to something other than `order.index(key)`: left to VS-KEY")
         elif "key_transpose_order" in c and "mod(" in c and ",12)" not in c:
             ctx.violation(f"{rule_prefix}2", inst, function=fi.qualname, construct="transposed key index not reduced modulo 12",
                           message=f"result normalises to `{c}`", file=fi.file, node=r)
